@@ -68,6 +68,14 @@ static void note_api(const char *name)
 static void lf_enter(const char *name)
 {
 	if (quiet) note_api(name);
+	if (!quiet && locks_api_depth() == 0 && locks_held_total() != 0) {
+		/* can only come from an unbracketed fixture call */
+		char key[160], d[400];
+		locks_describe_held(d, sizeof d);
+		snprintf(key, sizeof key, "C08/lock-held-between-calls/before-%s", name);
+		mc_fail(key, "%d lock(s) held at top level before %s: %s", locks_held_total(), name, d);
+		locks_release_all();
+	}
 	locks_enter(name);
 	sf_window(1);
 }
@@ -309,6 +317,7 @@ static void init(void)
 	static char data[8192];
 	sf_alloc_install();
 	event_set_log_callback(logcb);
+	signal(SIGPIPE, SIG_IGN);
 	evdns_set_log_fn(dnslogcb);
 	locks_install("C08", mc_param("lockdebug", 0));
 	memset(data, 'x', sizeof data);
